@@ -257,8 +257,23 @@ def record_vec_alone(sc):
         objs.append(o)
         logs.append(lg)
     events = []
+    shared = {}          # sc["shared"]: ONE vectorised callable (and one mask object) serves every call of the scenario
     for rep in range(sc.get("reps", 1)):
+        if sc.get("seq"):        # the inputs change from call to call (e.g. an observed python list first, then batches)
+            ident = Ident()
+            objs, logs = [], []
+            for j, spec in enumerate(sc["seq"][rep]):
+                o, lg = build_input(spec, j)
+                ident.add(o, j + 1)
+                lg["oid"] = j + 1
+                objs.append(o)
+                logs.append(lg)
         op = SymOp(sc["ret"], ident, 100 * (rep + 1))
+        if sc.get("shared"):
+            if "op" in shared:
+                op = shared["op"]
+                op.ident, op.base, op.calls = ident, 100 * (rep + 1), []
+            shared["op"] = op
         kwargs = {}
         if "random_state" in sc["kw"]:
             kwargs["random_state"] = ident.add(np.random.RandomState(5), 50)
@@ -276,17 +291,21 @@ def record_vec_alone(sc):
                        meta is not None, enc_map(meta, ident) if meta is not None else {})
         if sc["bs"] is not None:
             kwargs["batch_size"] = sc["bs"]
-        mask = sc["mask"]
+        mask = list(sc["mask"]) if sc["mask"] is not None else None      # the callable gets its OWN list: the scenario's stays pristine
         if mask is not None and sc.get("mask_tuple"):
             mask = tuple(mask)
         try:
             with time_limit(10):
-                if mask is None and sc["dt"] == "none":
+                if "f" in shared:
+                    f = shared["f"]
+                elif mask is None and sc["dt"] == "none":
                     f = elfi.tools.vectorize(op)
                 elif sc.get("positional_mask") and mask is not None:
                     f = elfi.tools.vectorize(op, mask, dtype=dtype_arg(sc["dt"]))
                 else:
                     f = elfi.tools.vectorize(op, constants=mask, dtype=dtype_arg(sc["dt"]))
+                if sc.get("shared"):
+                    shared["f"] = f
                 out = f(*objs, **kwargs)
             ev["res"] = "val"
             ev["out"] = enc_out(out, op)
@@ -458,6 +477,28 @@ def vec_scenarios(ctx, rnd):
         bs = rnd.choice([None, None, common, common, rnd.randint(0, 5)])
         sc = mk(classes, mask, bs, rnd.choice(["none", "false", "float64", "int64", "object"]))
         sc["reps"] = rnd.choice([1, 1, 2])
+        out.append(sc)
+    # one vectorised callable serving a SEQUENCE of calls whose inputs change (a python list / scalar first - e.g. observed
+    # data - then batches): the callable and its constants mask must not remember anything between calls
+    for _ in range(80 if ctx.quick else 800):
+        a = rnd.randint(1, 3)
+        common = rnd.randint(2, 4)
+        mask = rnd.choice([None, [], sorted(rnd.sample(range(a), rnd.randint(0, a - 1)))])
+        seq = []
+        for c in range(rnd.randint(2, 3)):
+            inputs = []
+            for j in range(a):
+                masked = mask is not None and j in mask
+                scalar_now = masked or (c == 0 and rnd.random() < 0.6) or rnd.random() < 0.15
+                if scalar_now:
+                    k = rnd.choice(["list", "int", "tuple", "float"])
+                    inputs.append(dict(k=k, n=common if k in ("list", "tuple") else 0))
+                else:
+                    inputs.append(dict(k=rnd.choice(["a1", "af", "a2"]), n=common))
+            seq.append(inputs)
+        sc = dict(kind="vec", where="alone", inputs=seq[0], seq=seq, reps=len(seq), shared=True, mask=mask, bs=rnd.choice([None, None, common]),
+                  dt=rnd.choice(["none", "false", "float64"]), ret=rnd.choice(NUMERIC_RETS), kw=[], meta="absent", mask_tuple=False,
+                  positional_mask=False)
         out.append(sc)
     # inside real model runs
     n_alone = len(out)
